@@ -231,6 +231,15 @@ func wrapsValue(v, e ssa.Value) bool {
 		if mi, isMI := a.(*ssa.MakeInterface); isMI && sameErr(mi.X, e) {
 			return true
 		}
+		// fmt.Errorf("...: %w", err): the error travels in the variadic slice
+		for _, el := range variadicElems(a) {
+			if sameErr(el, e) {
+				return true
+			}
+			if mi, isMI := el.(*ssa.MakeInterface); isMI && sameErr(mi.X, e) {
+				return true
+			}
+		}
 	}
 	return false
 }
